@@ -44,6 +44,18 @@ def gen_module(rng, tag):
             # explicit ids: the own position, the position of a LATER or EARLIER repetition, one shared id
             dec.append({"fname": fname, "name": None, "id": rng.choice([None, None, None, str(i), "same", str(i + 1), str(n - 1), "0"]),
                         "params": ps, "_txt": tx})
+    # loops over two arguments whose printed forms contain the separator of the id: different argument tuples,
+    # one id (x-y, z) / (x, y-z); an explicit id that equals what other arguments generate
+    if rng.random() < 0.35:
+        fname = rng.choice(FN)
+        pool = [("'x-y'", "x-y"), ("'z'", "z"), ("'x'", "x"), ("'y-z'", "y-z"), ("2020", "2020"), ("'01'", "01"), ("'2020-01'", "2020-01")]
+        combos = rng.choice([[(0, 1), (2, 3)], [(0, 1), (2, 3), (2, 1)], [(4, 5), (4, 1)], [(0, 1), (0, 1)], [(2, 1), (2, 3)]])
+        for a, b in combos:
+            dec.append({"fname": fname, "name": None, "id": None,
+                        "params": [("x", "printable", pool[a][0]), ("y", "printable", pool[b][0])], "_txt": [pool[a][1], pool[b][1]]})
+        if rng.random() < 0.4:
+            dec.append({"fname": fname, "name": None, "id": rng.choice(["2020-01", "x-y-z", "x-z"]),
+                        "params": [("x", "printable", "'q'"), ("y", "printable", "'r'")], "_txt": ["q", "r"]})
     return {"prefixed": prefixed, "decorated": dec, "tag": tag}
 
 
@@ -82,7 +94,18 @@ def gen_layout(rng):
     for i, d in enumerate(dirs):
         for fn in rng.sample(["task_m.py", "task_n.py"], rng.randint(1, 2)):
             mods[f"{d}/{fn}"] = {"prefixed": ["task_f"], "decorated": [], "tag": f"L{len(mods)}"}
-    return {"modules": mods, "inits": [f"{d}/__init__.py" for d in sorted(inits)], "paths": ["."], "pkgs": sorted(inits)}
+    paths = ["."]
+    if rng.random() < 0.4:
+        # several path arguments; directories whose names are string prefixes of one another are siblings, not ancestors
+        extra = rng.sample(["src", "src_extra", "src/inner", "srcx", "x_more"], rng.randint(2, 4))
+        for d in extra:
+            for fn in rng.sample(["task_m.py", "task_n.py"], rng.randint(1, 2)):
+                mods[f"{d}/{fn}"] = {"prefixed": ["task_f"], "decorated": [], "tag": f"L{len(mods)}"}
+        cand = sorted({d for d in list(dirs) + extra} | {m for m in mods if rng.random() < 0.2})
+        paths = rng.sample(cand, rng.randint(1, min(4, len(cand))))
+        if rng.random() < 0.3:
+            paths.append(rng.choice(paths))
+    return {"modules": mods, "inits": [f"{d}/__init__.py" for d in sorted(inits)], "paths": paths, "pkgs": sorted(inits)}
 
 
 def comps(rel):
@@ -105,13 +128,23 @@ def run_layouts(out, rng, n):
     flat_cases = [c for ch in chunks for c in ch]
     flat_res = [r for rr in res for r in rr]
     terms = []
+    def under(c):
+        """the task files below (or equal to) one of the path arguments - by path components"""
+        sel = []
+        for m in sorted(c["modules"]):
+            mp = m.split("/")
+            for a in c["paths"]:
+                ap = [] if a == "." else a.split("/")
+                if mp[:len(ap)] == ap:
+                    sel.append(m); break
+        return sel
     for c in flat_cases:
-        paths = sorted(c["modules"])
+        paths = under(c)
         terms.append(([comps(d) for d in c["pkgs"]], [comps(p) for p in paths]))
     model = coq_eval_cases("c13lay", IMPORTS, "fun c => match c with (pk, ps) => import_all (fun d => existsb (eqbP d) pk) [] ps end", terms, shard=100)
     for c, r, m in zip(flat_cases, flat_res, model):
-        paths = sorted(c["modules"])
-        out.case({"layout": paths, "inits": c["inits"]}, nontrivial=True)
+        paths = under(c)
+        out.case({"layout": paths, "inits": c["inits"], "path_arguments": c["paths"]}, nontrivial=True)
         out.count("layouts")
         if r.get("exit") == -1:
             out.disagreement("build did not return", {"case": c, "result": r}); continue
@@ -121,10 +154,10 @@ def run_layouts(out, rng, n):
             want.append(c["modules"][key[tuple(map(tuple, f))]]["tag"] + ":p0")
         if sorted(want) != sorted(r["ran"]) or r["exit"] != 0:
             out.disagreement("functions executed differ from the modules the model imports", {"case": c, "impl_ran": sorted(r["ran"]), "model": sorted(want), "exit": r["exit"]})
-        tags = sorted(mod["tag"] + ":p0" for mod in c["modules"].values())
+        tags = sorted(c["modules"][p]["tag"] + ":p0" for p in paths)
         if sorted(r["ran"]) != tags or len(r["tasks"]) != len(paths) or len(set(r["sigs"])) != len(r["sigs"]):
             out.violation("task files and collected tasks do not correspond one to one (a module was imported for another file)",
-                          {"layout": paths, "inits": c["inits"], "tasks": r["tasks"], "ran": sorted(r["ran"]), "expected": tags})
+                          {"layout": sorted(c["modules"]), "path_arguments": c["paths"], "inits": c["inits"], "tasks": r["tasks"], "ran": sorted(r["ran"]), "expected": tags})
 
 
 def run(out, tier, seed, proof):
